@@ -19,6 +19,7 @@ const PREFIXES: [&str; 6] = ["bound", "bound+peers", "connected-out", "mid-traff
 struct Findings {
     v: Vec<(String, String)>,
     inconclusive: Vec<String>,
+    rebinds: u64,
 }
 
 async fn late_or_canary(f: &mut Findings, sig: String, msg: String) {
@@ -31,7 +32,7 @@ async fn late_or_canary(f: &mut Findings, sig: String, msg: String) {
 }
 
 async fn rig_case(ty: &str, transport: &str, prefix: &str, how: &str) -> Findings {
-    let mut f = Findings { v: vec![], inconclusive: vec![] };
+    let mut f = Findings { v: vec![], inconclusive: vec![], rebinds: 0 };
     let peer_ty = peer_type_for(ty);
     let mut sock = Sock::new(ty, None);
     let mut raws: Vec<Raw> = Vec::new();
@@ -239,6 +240,34 @@ async fn rig_case(ty: &str, transport: &str, prefix: &str, how: &str) -> Finding
             break;
         }
     }
+    // ---- the TCP port is free: a restarted server can listen on it again, both while the
+    // former peers still hold their end open and after they have closed it
+    if let Some(addr) = bound.as_ref().and_then(|ep| ep.strip_prefix("tcp://")) {
+        for phase in ["peers-still-open", "peers-closed"] {
+            if phase == "peers-closed" {
+                if raws.is_empty() {
+                    break;
+                }
+                raws.clear();
+                tokio::time::sleep(Duration::from_millis(20)).await;
+            }
+            match tokio::net::TcpListener::bind(addr).await {
+                Ok(l) => {
+                    drop(l);
+                    f.rebinds += 1;
+                }
+                Err(e) => {
+                    late_or_canary(
+                        &mut f,
+                        format!("C17/{how}/port-not-free/{transport}"),
+                        format!("{ty} over {transport}, {prefix}: after {how} (and after every peer saw end-of-stream; {phase}) a new listener on {addr} fails: {e}"),
+                    )
+                    .await;
+                    break;
+                }
+            }
+        }
+    }
     // ---- background tasks terminate
     if !rig::eventually(WAIT, || rig::alive_tasks() == 0).await {
         let n = rig::alive_tasks();
@@ -417,6 +446,7 @@ impl Prop for C17 {
                 ctx.count(&format!("rig_how/{how}"));
                 ctx.sample(&format!("rig_{prefix}"), || case.clone());
                 let (f, _alive) = rig::run(2, rig_case(&ty, &transport, &prefix, &how));
+                ctx.add("ports_bound_again_after_the_socket_was_gone", f.rebinds);
                 for i in f.inconclusive {
                     ctx.inconclusive(format!("C17 {ty}/{transport}/{prefix}/{how}: {i}"));
                 }
@@ -446,6 +476,7 @@ impl Prop for C17 {
 
     fn floors(&self, _tier: Tier) -> Vec<(&'static str, u64)> {
         vec![
+            ("ports_bound_again_after_the_socket_was_gone", 100),
             ("mirror_cases", 90),
             ("mirror_connection_replaced_by_same_identity", 18),
             ("mirror_stalled_peer_with_data_queued", 10),
